@@ -277,11 +277,9 @@ func runFmt(c FmtCase) *pbt.Result {
 	want := time.UnixMilli(c.T).In(time.Local) // the zone Parse interprets the fields in (pinned to UTC)
 	df := dateutil.NewDateFormat(c.Pattern)
 	text := df.FormatTime(want)
-	for round := 0; round < 2; round++ { // the second round re-uses the (stateful) format object
-		parser := df
-		if round == 0 {
-			parser = dateutil.NewDateFormat(c.Pattern)
-		}
+	fresh := dateutil.NewDateFormat(c.Pattern)
+	// a fresh object, the same object a second time (Parse keeps the parsed fields in the object), and the object that formatted
+	for _, parser := range []*dateutil.DateFormat{fresh, fresh, df} {
 		ms, err := parser.Parse(text)
 		if err != nil {
 			return pbt.Fail("pattern %q: Parse(Format(%s) = %q) failed: %v", c.Pattern, want.Format(time.RFC3339Nano), text, err)
